@@ -236,6 +236,11 @@ class SpecEval:
                 z = same(a, b)
             return z if isinstance(op, ast.Is) else z3.Not(z)
         if isinstance(op, (ast.In, ast.NotIn)):
+            if isinstance(a, VOpt) and isinstance(b, VList) and b.elem is not None and ty_of(a.val) == b.elem:
+                # an Optional member test against a list of plain values: None is not a member
+                v, _ = ops.contains(b, a.val)
+                r = z3.And(z3.Not(a.isnone), v.z)
+                return r if isinstance(op, ast.In) else z3.Not(r)
             v, _ = ops.contains(b, a)
             return v.z if isinstance(op, ast.In) else z3.Not(v.z)
         if isinstance(a, VOpt) and not isinstance(op, (ast.Eq, ast.NotEq)):
